@@ -132,7 +132,7 @@ impl Evidence {
     }
 
     pub fn write(&self) {
-        let dir = std::path::Path::new(crate::VERIF_ROOT).join("evidence");
+        let dir = crate::verif_root().join("evidence");
         let _ = std::fs::create_dir_all(&dir);
         let path = dir.join(format!("{}.json", self.prop));
         let text = serde_json::to_string_pretty(&self.to_json()).unwrap_or_else(|_| "{}".into());
